@@ -252,6 +252,30 @@ def run_instance(inst):
             keysets.append((order, sorted(linked.Functions.keys()), sorted(linked.Globals.keys())))
             if first is None:
                 first = linked
+        # a linker that is asked twice: modules added after a first Link() must show up in the second one (and nothing may get lost)
+        if inst.get("extras"):
+            try:
+                from nsl import LinearIR
+                ld = CountingLoader()
+                lk = LinearIR.Linker(loader=ld)
+                fs = LinearIR.FilesystemModuleLoader()
+                with chdir(tmp), contextlib.redirect_stdout(io.StringIO()):
+                    lk.AddModule(fs.Load("main"))
+                    p1 = lk.Link()
+                    k1 = sorted(p1.Functions.keys())
+                    for e in inst["extras"]:
+                        lk.AddModule(fs.Load(e))
+                    p2 = lk.Link()
+                k2 = sorted(p2.Functions.keys())
+                full = keysets[0][1] if keysets else None
+                if full is not None and k2 != full:
+                    res["violations"].append(dict(what=f"Link() after further AddModule calls returns {k2}, but linking the same modules in one go gives {full} (first Link: {k1})",
+                                                  replay=dict(harness="C16", inst=inst, kind="incremental")))
+                bad2 = {m: ld.loads.count(m) for m in imported if ld.loads.count(m) != 1}
+                if bad2:
+                    res["violations"].append(dict(what=f"linking twice loads imported modules {bad2} times", replay=dict(harness="C16", inst=inst, kind="incremental")))
+            except Exception as e:  # noqa: BLE001
+                res["violations"].append(dict(what=f"Link() twice on one linker fails: {type(e).__name__}: {str(e)[:120]}", replay=dict(harness="C16", inst=inst, kind="incremental")))
         if len({(tuple(k), tuple(g)) for _, k, g in keysets}) > 1:
             res["violations"].append(dict(what=f"the linked program depends on the order of AddModule: {keysets[:3]}", replay=dict(harness="C16", inst=inst, kind="order")))
         if first is None:
